@@ -103,6 +103,11 @@ type c09Plan struct {
 	expect int
 	status int  // final status (0 = 200)
 	silent bool // close the connection right after the complete response, without announcing it
+	// unsolicited bytes written on the kept-alive connection behind the complete response:
+	// 0 = none, 1 = a duplicate of the whole response, 2 = a well-formed response nobody asked for
+	// (tag 0), 3 = garbage that is no HTTP, 4 = half a status line
+	extra      int
+	extraDelay int // ms between the response and the unsolicited bytes (0 = same write burst)
 }
 
 func (p c09Plan) String() string {
@@ -112,18 +117,18 @@ func (p c09Plan) String() string {
 		}
 		return 0
 	}
-	return fmt.Sprintf("%d,%d,%d,%d,%d,%d,%d,%d,%d,%d", p.delay, p.size, b(p.chunked), p.pause, b(p.close), b(p.abort), b(p.altsvc),
-		p.expect, p.status, b(p.silent))
+	return fmt.Sprintf("%d,%d,%d,%d,%d,%d,%d,%d,%d,%d,%d,%d", p.delay, p.size, b(p.chunked), p.pause, b(p.close), b(p.abort), b(p.altsvc),
+		p.expect, p.status, b(p.silent), p.extra, p.extraDelay)
 }
 
 func c09ParsePlan(s string) c09Plan {
-	var v [10]int
+	var v [12]int
 	for i, f := range strings.Split(s, ",") {
 		if i < len(v) {
 			v[i], _ = strconv.Atoi(f)
 		}
 	}
-	return c09Plan{v[0], v[1], v[2] == 1, v[3], v[4] == 1, v[5] == 1, v[6] == 1, v[7], v[8], v[9] == 1}
+	return c09Plan{v[0], v[1], v[2] == 1, v[3], v[4] == 1, v[5] == 1, v[6] == 1, v[7], v[8], v[9] == 1, v[10], v[11]}
 }
 
 func (p c09Plan) wantStatus() int {
@@ -366,6 +371,24 @@ func (o *c09H1Origin) handle(c net.Conn) {
 		gen := st.gen
 		st.Unlock()
 		c.Write(last)
+		if pl.extra != 0 && !pl.close && !pl.silent {
+			if pl.extraDelay > 0 {
+				time.Sleep(time.Duration(pl.extraDelay) * time.Millisecond)
+			}
+			var x []byte
+			switch pl.extra {
+			case 1:
+				x = append(append(x, first...), last...)
+			case 2:
+				x = []byte("HTTP/1.1 200 OK\r\nX-Tag: 0\r\nContent-Length: 9\r\n\r\nunasked:0")
+			case 3:
+				x = []byte("\x00\x01 not http at all\r\n\r\n")
+			default:
+				x = []byte("HTTP/1.1 2")
+			}
+			o.rec.count("origin-sent-unsolicited-bytes")
+			c.Write(x)
+		}
 		if pl.close || pl.silent {
 			if pl.silent {
 				o.rec.count("origin-closed-silently-after-response")
